@@ -195,4 +195,302 @@ pub(crate) mod __verif {
         kani::cover!(true);
     }
 
+
+    // ---------------------------------------------------------------------------------------------
+    // Non-recursive emitter helpers (the stack-driven emit_node itself does not close under CBMC, see DESIGN.md).
+
+    fn fresh_emitter() -> Emitter {
+        Emitter {
+            next_loop_id: 0,
+            group_names: Vec::new(),
+            in_lookbehind: false,
+            result: CompiledRegex {
+                insns: Vec::with_capacity(4),
+                brackets: Vec::new(),
+                loops: 0,
+                groups: 0,
+                group_names: Vec::new().into_boxed_slice(),
+                flags: Flags::default(),
+                start_pred: StartPredicate::Arbitrary,
+            },
+        }
+    }
+
+    // @obligation name=ck2_bracket_as_ascii props=C12,C01:t fn=emit::bracket_as_ascii,emit::make_anchor kind=bounded bound="bracket with 1 symbolic interval, invert symbolic; probe: every byte" min_checks=50 w=3 timeout=1500
+    // bracket_as_ascii returns Some(bitmap) only for a non-inverted bracket whose members are all < 128, and then the bitmap
+    // has exactly the bracket's members (so AsciiBracket matches the same characters as the Bracket it replaces);
+    // make_anchor maps ^/$ with the multiline flag unchanged.
+    #[kani::proof]
+    #[kani::unwind(130)]
+    fn ck2_bracket_as_ascii() {
+        use crate::bytesearch::ByteSet;
+        let first: u32 = kani::any();
+        let last: u32 = kani::any();
+        kani::assume(first <= last && last <= 0x10FFFF);
+        let invert: bool = kani::any();
+        let cps = crate::codepointset::CodePointSet::from_sorted_disjoint_intervals(vec![crate::codepointset::Interval { first, last }]);
+        let bc = BracketContents { invert, cps };
+        let r = bracket_as_ascii(&bc);
+        let b: u8 = kani::any();
+        match &r {
+            Some(bm) => {
+                assert!(!invert && last < 128);
+                assert!(bm.contains(b) == (first <= b as u32 && b as u32 <= last), "the ASCII bitmap has exactly the bracket's members");
+            }
+            None => assert!(invert || last >= 128),
+        }
+        let ml: bool = kani::any();
+        assert!(matches!(make_anchor(ir::AnchorType::StartOfLine, ml), Insn::StartOfLine { multiline } if multiline == ml));
+        assert!(matches!(make_anchor(ir::AnchorType::EndOfLine, ml), Insn::EndOfLine { multiline } if multiline == ml));
+        core::mem::forget(bc);
+        kani::cover!(r.is_some() && first < last);
+        kani::cover!(r.is_none() && !invert);
+    }
+
+    // @obligation name=i3_emit_byte_set_insn props=C01,C03:t fn=emit::Emitter::emit_byte_set_insn kind=bounded bound="byte sets of 0..=4 symbolic bytes" min_checks=50 w=2 timeout=900
+    // emit_byte_set_insn: an empty set always fails, one byte becomes ByteSeq1, 2/3/4 bytes become ByteSet2/3/4 with exactly
+    // those members in order.
+    #[kani::proof]
+    #[kani::unwind(6)]
+    fn i3_emit_byte_set_insn() {
+        let s: [u8; 4] = kani::any();
+        let mut e = fresh_emitter();
+        e.emit_byte_set_insn(&s[..0]);
+        e.emit_byte_set_insn(&s[..1]);
+        e.emit_byte_set_insn(&s[..2]);
+        e.emit_byte_set_insn(&s[..3]);
+        let mut e2 = fresh_emitter();
+        e2.emit_byte_set_insn(&s[..4]);
+        assert!(matches!(&e.result.insns[0], Insn::JustFail));
+        assert!(matches!(&e.result.insns[1], Insn::ByteSeq1(a) if a[0] == s[0]));
+        assert!(matches!(&e.result.insns[2], Insn::ByteSet2(a) if a.0 == [s[0], s[1]]));
+        assert!(matches!(&e.result.insns[3], Insn::ByteSet3(a) if a.0 == [s[0], s[1], s[2]]));
+        assert!(matches!(&e2.result.insns[0], Insn::ByteSet4(a) if a.0 == s));
+        core::mem::forget((e, e2));
+        kani::cover!(true);
+    }
+
+    // @obligation name=i3_emit_byte_sequence_insn_1 props=C01,C03:t fn=emit::Emitter::emit_byte_sequence_insn kind=bounded bound="a chunk of 1 symbolic bytes" min_checks=50 w=2 timeout=900
+    // emit_byte_sequence_insn on a 1-byte chunk emits ByteSeq1 holding exactly those bytes in order.
+    #[kani::proof]
+    #[kani::unwind(4)]
+    fn i3_emit_byte_sequence_insn_1() {
+        let s: [u8; 1] = kani::any();
+        let mut e = fresh_emitter();
+        e.emit_byte_sequence_insn(&s);
+        assert!(e.result.insns.len() == 1);
+        assert!(matches!(&e.result.insns[0], Insn::ByteSeq1(a) if *a == s));
+        core::mem::forget(e);
+        kani::cover!(true);
+    }
+
+    // @obligation name=i3_emit_byte_sequence_insn_2 props=C01:t,C03:t fn=emit::Emitter::emit_byte_sequence_insn kind=bounded bound="a chunk of 2 symbolic bytes" min_checks=50 w=2 timeout=900
+    // emit_byte_sequence_insn on a 2-byte chunk emits ByteSeq2 holding exactly those bytes in order.
+    #[kani::proof]
+    #[kani::unwind(5)]
+    fn i3_emit_byte_sequence_insn_2() {
+        let s: [u8; 2] = kani::any();
+        let mut e = fresh_emitter();
+        e.emit_byte_sequence_insn(&s);
+        assert!(e.result.insns.len() == 1);
+        assert!(matches!(&e.result.insns[0], Insn::ByteSeq2(a) if *a == s));
+        core::mem::forget(e);
+        kani::cover!(true);
+    }
+
+    // @obligation name=i3_emit_byte_sequence_insn_3 props=C01:t,C03:t fn=emit::Emitter::emit_byte_sequence_insn kind=bounded bound="a chunk of 3 symbolic bytes" min_checks=50 w=2 timeout=900
+    // emit_byte_sequence_insn on a 3-byte chunk emits ByteSeq3 holding exactly those bytes in order.
+    #[kani::proof]
+    #[kani::unwind(6)]
+    fn i3_emit_byte_sequence_insn_3() {
+        let s: [u8; 3] = kani::any();
+        let mut e = fresh_emitter();
+        e.emit_byte_sequence_insn(&s);
+        assert!(e.result.insns.len() == 1);
+        assert!(matches!(&e.result.insns[0], Insn::ByteSeq3(a) if *a == s));
+        core::mem::forget(e);
+        kani::cover!(true);
+    }
+
+    // @obligation name=i3_emit_byte_sequence_insn_4 props=C01:t,C03:t fn=emit::Emitter::emit_byte_sequence_insn kind=bounded bound="a chunk of 4 symbolic bytes" min_checks=50 w=2 timeout=900
+    // emit_byte_sequence_insn on a 4-byte chunk emits ByteSeq4 holding exactly those bytes in order.
+    #[kani::proof]
+    #[kani::unwind(7)]
+    fn i3_emit_byte_sequence_insn_4() {
+        let s: [u8; 4] = kani::any();
+        let mut e = fresh_emitter();
+        e.emit_byte_sequence_insn(&s);
+        assert!(e.result.insns.len() == 1);
+        assert!(matches!(&e.result.insns[0], Insn::ByteSeq4(a) if *a == s));
+        core::mem::forget(e);
+        kani::cover!(true);
+    }
+
+    // @obligation name=i3_emit_byte_sequence_insn_5 props=C01,C03:t fn=emit::Emitter::emit_byte_sequence_insn kind=bounded bound="a chunk of 5 symbolic bytes" min_checks=50 w=2 timeout=900
+    // emit_byte_sequence_insn on a 5-byte chunk emits ByteSeq5 holding exactly those bytes in order.
+    #[kani::proof]
+    #[kani::unwind(8)]
+    fn i3_emit_byte_sequence_insn_5() {
+        let s: [u8; 5] = kani::any();
+        let mut e = fresh_emitter();
+        e.emit_byte_sequence_insn(&s);
+        assert!(e.result.insns.len() == 1);
+        assert!(matches!(&e.result.insns[0], Insn::ByteSeq5(a) if *a == s));
+        core::mem::forget(e);
+        kani::cover!(true);
+    }
+
+    // @obligation name=i3_emit_byte_sequence_insn_6 props=C01:t,C03:t fn=emit::Emitter::emit_byte_sequence_insn kind=bounded bound="a chunk of 6 symbolic bytes" min_checks=50 w=2 timeout=900
+    // emit_byte_sequence_insn on a 6-byte chunk emits ByteSeq6 holding exactly those bytes in order.
+    #[kani::proof]
+    #[kani::unwind(9)]
+    fn i3_emit_byte_sequence_insn_6() {
+        let s: [u8; 6] = kani::any();
+        let mut e = fresh_emitter();
+        e.emit_byte_sequence_insn(&s);
+        assert!(e.result.insns.len() == 1);
+        assert!(matches!(&e.result.insns[0], Insn::ByteSeq6(a) if *a == s));
+        core::mem::forget(e);
+        kani::cover!(true);
+    }
+
+    // @obligation name=i3_emit_byte_sequence_insn_7 props=C01:t,C03:t fn=emit::Emitter::emit_byte_sequence_insn kind=bounded bound="a chunk of 7 symbolic bytes" min_checks=50 w=2 timeout=900
+    // emit_byte_sequence_insn on a 7-byte chunk emits ByteSeq7 holding exactly those bytes in order.
+    #[kani::proof]
+    #[kani::unwind(10)]
+    fn i3_emit_byte_sequence_insn_7() {
+        let s: [u8; 7] = kani::any();
+        let mut e = fresh_emitter();
+        e.emit_byte_sequence_insn(&s);
+        assert!(e.result.insns.len() == 1);
+        assert!(matches!(&e.result.insns[0], Insn::ByteSeq7(a) if *a == s));
+        core::mem::forget(e);
+        kani::cover!(true);
+    }
+
+    // @obligation name=i3_emit_byte_sequence_insn_8 props=C01:t,C03:t fn=emit::Emitter::emit_byte_sequence_insn kind=bounded bound="a chunk of 8 symbolic bytes" min_checks=50 w=2 timeout=900
+    // emit_byte_sequence_insn on a 8-byte chunk emits ByteSeq8 holding exactly those bytes in order.
+    #[kani::proof]
+    #[kani::unwind(11)]
+    fn i3_emit_byte_sequence_insn_8() {
+        let s: [u8; 8] = kani::any();
+        let mut e = fresh_emitter();
+        e.emit_byte_sequence_insn(&s);
+        assert!(e.result.insns.len() == 1);
+        assert!(matches!(&e.result.insns[0], Insn::ByteSeq8(a) if *a == s));
+        core::mem::forget(e);
+        kani::cover!(true);
+    }
+
+    // @obligation name=i3_emit_byte_sequence_insn_9 props=C01:t,C03:t fn=emit::Emitter::emit_byte_sequence_insn kind=bounded bound="a chunk of 9 symbolic bytes" min_checks=50 w=2 timeout=900
+    // emit_byte_sequence_insn on a 9-byte chunk emits ByteSeq9 holding exactly those bytes in order.
+    #[kani::proof]
+    #[kani::unwind(12)]
+    fn i3_emit_byte_sequence_insn_9() {
+        let s: [u8; 9] = kani::any();
+        let mut e = fresh_emitter();
+        e.emit_byte_sequence_insn(&s);
+        assert!(e.result.insns.len() == 1);
+        assert!(matches!(&e.result.insns[0], Insn::ByteSeq9(a) if *a == s));
+        core::mem::forget(e);
+        kani::cover!(true);
+    }
+
+    // @obligation name=i3_emit_byte_sequence_insn_10 props=C01:t,C03:t fn=emit::Emitter::emit_byte_sequence_insn kind=bounded bound="a chunk of 10 symbolic bytes" min_checks=50 w=2 timeout=900
+    // emit_byte_sequence_insn on a 10-byte chunk emits ByteSeq10 holding exactly those bytes in order.
+    #[kani::proof]
+    #[kani::unwind(13)]
+    fn i3_emit_byte_sequence_insn_10() {
+        let s: [u8; 10] = kani::any();
+        let mut e = fresh_emitter();
+        e.emit_byte_sequence_insn(&s);
+        assert!(e.result.insns.len() == 1);
+        assert!(matches!(&e.result.insns[0], Insn::ByteSeq10(a) if *a == s));
+        core::mem::forget(e);
+        kani::cover!(true);
+    }
+
+    // @obligation name=i3_emit_byte_sequence_insn_11 props=C01:t,C03:t fn=emit::Emitter::emit_byte_sequence_insn kind=bounded bound="a chunk of 11 symbolic bytes" min_checks=50 w=2 timeout=900
+    // emit_byte_sequence_insn on a 11-byte chunk emits ByteSeq11 holding exactly those bytes in order.
+    #[kani::proof]
+    #[kani::unwind(14)]
+    fn i3_emit_byte_sequence_insn_11() {
+        let s: [u8; 11] = kani::any();
+        let mut e = fresh_emitter();
+        e.emit_byte_sequence_insn(&s);
+        assert!(e.result.insns.len() == 1);
+        assert!(matches!(&e.result.insns[0], Insn::ByteSeq11(a) if *a == s));
+        core::mem::forget(e);
+        kani::cover!(true);
+    }
+
+    // @obligation name=i3_emit_byte_sequence_insn_12 props=C01:t,C03:t fn=emit::Emitter::emit_byte_sequence_insn kind=bounded bound="a chunk of 12 symbolic bytes" min_checks=50 w=2 timeout=900
+    // emit_byte_sequence_insn on a 12-byte chunk emits ByteSeq12 holding exactly those bytes in order.
+    #[kani::proof]
+    #[kani::unwind(15)]
+    fn i3_emit_byte_sequence_insn_12() {
+        let s: [u8; 12] = kani::any();
+        let mut e = fresh_emitter();
+        e.emit_byte_sequence_insn(&s);
+        assert!(e.result.insns.len() == 1);
+        assert!(matches!(&e.result.insns[0], Insn::ByteSeq12(a) if *a == s));
+        core::mem::forget(e);
+        kani::cover!(true);
+    }
+
+    // @obligation name=i3_emit_byte_sequence_insn_13 props=C01:t,C03:t fn=emit::Emitter::emit_byte_sequence_insn kind=bounded bound="a chunk of 13 symbolic bytes" min_checks=50 w=2 timeout=900
+    // emit_byte_sequence_insn on a 13-byte chunk emits ByteSeq13 holding exactly those bytes in order.
+    #[kani::proof]
+    #[kani::unwind(16)]
+    fn i3_emit_byte_sequence_insn_13() {
+        let s: [u8; 13] = kani::any();
+        let mut e = fresh_emitter();
+        e.emit_byte_sequence_insn(&s);
+        assert!(e.result.insns.len() == 1);
+        assert!(matches!(&e.result.insns[0], Insn::ByteSeq13(a) if *a == s));
+        core::mem::forget(e);
+        kani::cover!(true);
+    }
+
+    // @obligation name=i3_emit_byte_sequence_insn_14 props=C01:t,C03:t fn=emit::Emitter::emit_byte_sequence_insn kind=bounded bound="a chunk of 14 symbolic bytes" min_checks=50 w=2 timeout=900
+    // emit_byte_sequence_insn on a 14-byte chunk emits ByteSeq14 holding exactly those bytes in order.
+    #[kani::proof]
+    #[kani::unwind(17)]
+    fn i3_emit_byte_sequence_insn_14() {
+        let s: [u8; 14] = kani::any();
+        let mut e = fresh_emitter();
+        e.emit_byte_sequence_insn(&s);
+        assert!(e.result.insns.len() == 1);
+        assert!(matches!(&e.result.insns[0], Insn::ByteSeq14(a) if *a == s));
+        core::mem::forget(e);
+        kani::cover!(true);
+    }
+
+    // @obligation name=i3_emit_byte_sequence_insn_15 props=C01:t,C03:t fn=emit::Emitter::emit_byte_sequence_insn kind=bounded bound="a chunk of 15 symbolic bytes" min_checks=50 w=2 timeout=900
+    // emit_byte_sequence_insn on a 15-byte chunk emits ByteSeq15 holding exactly those bytes in order.
+    #[kani::proof]
+    #[kani::unwind(18)]
+    fn i3_emit_byte_sequence_insn_15() {
+        let s: [u8; 15] = kani::any();
+        let mut e = fresh_emitter();
+        e.emit_byte_sequence_insn(&s);
+        assert!(e.result.insns.len() == 1);
+        assert!(matches!(&e.result.insns[0], Insn::ByteSeq15(a) if *a == s));
+        core::mem::forget(e);
+        kani::cover!(true);
+    }
+
+    // @obligation name=i3_emit_byte_sequence_insn_16 props=C01,C03:t fn=emit::Emitter::emit_byte_sequence_insn kind=bounded bound="a chunk of 16 symbolic bytes" min_checks=50 w=2 timeout=900
+    // emit_byte_sequence_insn on a 16-byte chunk emits ByteSeq16 holding exactly those bytes in order.
+    #[kani::proof]
+    #[kani::unwind(19)]
+    fn i3_emit_byte_sequence_insn_16() {
+        let s: [u8; 16] = kani::any();
+        let mut e = fresh_emitter();
+        e.emit_byte_sequence_insn(&s);
+        assert!(e.result.insns.len() == 1);
+        assert!(matches!(&e.result.insns[0], Insn::ByteSeq16(a) if *a == s));
+        core::mem::forget(e);
+        kani::cover!(true);
+    }
 }
